@@ -257,6 +257,7 @@ type Plan struct {
 	ShareCfg  bool        `json:"shareCfg,omitempty"`
 	Render    *RenderSpec `json:"render,omitempty"` // C05
 	Net       *NetSpec    `json:"net,omitempty"`    // C19/C17/C20b
+	Disk      *DiskSpec   `json:"disk,omitempty"`   // C20d
 }
 
 func (p *Plan) Clone() *Plan {
